@@ -68,6 +68,9 @@ func (p *Program) info(fn *ssa.Function) *fnInfo {
 	return fi
 }
 
+// rtErrorMethod is the Error() method of the engine's run-time error values.
+type rtErrorMethod struct{}
+
 type deferred struct {
 	fn    value
 	args  []value
@@ -222,6 +225,8 @@ func (m *Machine) call(caller *frame, fn value, args []value) value {
 		return m.callSSA(caller, fn.Fn, args, fn.Env)
 	case *ssa.Builtin:
 		return m.callBuiltin(caller, fn, args)
+	case rtErrorMethod:
+		return args[0]
 	}
 	panic(fmt.Sprintf("engine: cannot call %T", fn))
 }
@@ -596,6 +601,12 @@ func (m *Machine) prepareCall(fr *frame, call *ssa.CallCommon) (fn value, args [
 		if recv.t == nil {
 			m.rtPanic(fr, "invalid memory address or nil pointer dereference (method on nil interface)")
 		}
+		if recv.t == m.prog.rtErrType {
+			if call.Method.Name() == "Error" {
+				return rtErrorMethod{}, []value{recv.v}
+			}
+			panic(unsupported("method " + call.Method.Name() + " on a run-time error value"))
+		}
 		f := m.prog.lookupMethod(recv.t, call.Method)
 		if f == nil {
 			panic(fmt.Sprintf("engine: method set of %v lacks %s", recv.t, call.Method))
@@ -898,11 +909,19 @@ func (m *Machine) typeAssert(fr *frame, instr *ssa.TypeAssert, itf iface) value 
 		if instr.CommaOk {
 			return tuple{zero(instr.AssertedType), falseT}
 		}
+		q := func(p *types.Package) string { return p.Name() }
 		src := "nil"
 		if itf.t != nil {
-			src = typeString(itf.t)
+			src = types.TypeString(itf.t, q)
 		}
-		msg := fmt.Sprintf("interface conversion: interface is %s, not %s", shortPkg(src), shortPkg(typeString(instr.AssertedType)))
+		xt := types.TypeString(instr.X.Type(), q)
+		if xt == "any" {
+			xt = "interface {}"
+		}
+		msg := fmt.Sprintf("interface conversion: %s is %s, not %s", xt, src, types.TypeString(instr.AssertedType, q))
+		if itf.t == nil {
+			msg = fmt.Sprintf("interface conversion: interface is nil, not %s", types.TypeString(instr.AssertedType, q))
+		}
 		panic(targetPanic{v: iface{t: m.prog.rtErrType, v: mkStr(msg)}, site: siteName(fr.fn), msg: msg})
 	}
 	if instr.CommaOk {
@@ -914,6 +933,15 @@ func (m *Machine) typeAssert(fr *frame, instr *ssa.TypeAssert, itf iface) value 
 func (p *Program) implements(t types.Type, i *types.Interface) bool {
 	p.methodSets.Lock()
 	defer p.methodSets.Unlock()
+	if t == p.rtErrType {
+		// run-time errors implement error (and runtime.Error)
+		for k := 0; k < i.NumMethods(); k++ {
+			if n := i.Method(k).Name(); n != "Error" && n != "RuntimeError" {
+				return false
+			}
+		}
+		return true
+	}
 	return types.Implements(t, i)
 }
 
